@@ -23,27 +23,33 @@ open CC.Spec.DPool (Op)
 open CC.DynamicPool (OpOk RunOk)
 
 /-- One step of the concrete model refines one step of the page/block spec (the spec's refusal flag
-being the allocator's answer): same returned pointer, abstraction commutes, invariant preserved;
-the ledger moves exactly with the number of blocks the pool owns (struct + pages), the pool's
-blocks stay within the live blocks, and no checked access or `mem_free` faults. -/
+being the answer of the pool's allocator triple): same returned pointer, abstraction commutes,
+invariant preserved (`Inv`, addressable page sizes `Sized`, the triple itself); the ledger counter of
+the pool's triple moves exactly with the number of blocks the pool owns (struct + pages), the other
+triple's blocks are untouched, and no checked access or `mem_free` faults. -/
 theorem step_refines (grow : Nat → Nat) (fresh : Nat) (s : DynamicPool) (op : Op) (m : Mem)
-    (h : s.Inv) (hop : OpOk s op) (hl : s.owned ≤ m.live) :
-    (DynamicPool.step grow fresh s op m).1 = (DPool.step grow fresh s.abs (DynamicPool.annotate op m)).1 ∧
-    (DynamicPool.step grow fresh s op m).2.1.abs = (DPool.step grow fresh s.abs (DynamicPool.annotate op m)).2 ∧
-    (DynamicPool.step grow fresh s op m).2.1.Inv ∧
-    (DynamicPool.step grow fresh s op m).2.2.live + s.owned = m.live + (DynamicPool.step grow fresh s op m).2.1.owned ∧
-    (DynamicPool.step grow fresh s op m).2.2.fault = m.fault := by
+    (h : s.Inv) (hz : s.Sized) (hop : OpOk s op) (hl : s.owned ≤ m.liveT s.triple) :
+    (DynamicPool.step grow fresh s op m).1 = (DPool.step grow fresh s.abs (DynamicPool.annotate s op m)).1 ∧
+    (DynamicPool.step grow fresh s op m).2.1.abs = (DPool.step grow fresh s.abs (DynamicPool.annotate s op m)).2 ∧
+    (DynamicPool.step grow fresh s op m).2.1.Inv ∧ (DynamicPool.step grow fresh s op m).2.1.Sized ∧
+    (DynamicPool.step grow fresh s op m).2.1.triple = s.triple ∧
+    (DynamicPool.step grow fresh s op m).2.2.liveT s.triple + s.owned =
+      m.liveT s.triple + (DynamicPool.step grow fresh s op m).2.1.owned ∧
+    (DynamicPool.step grow fresh s op m).2.2.fault = m.fault ∧
+    (DynamicPool.step grow fresh s op m).2.2.liveO s.triple = m.liveO s.triple := by
+  have hsz := DynamicPool.step_sized grow fresh s op m h hz
+  have htr := DynamicPool.step_triple grow fresh s op m
   cases op with
   | malloc n r =>
     have hr := DynamicPool.malloc_refines grow fresh s n m h
     have hg := DynamicPool.malloc_ledger grow fresh s n m
-    exact ⟨hr.1, hr.2, DynamicPool.malloc_inv grow fresh s n m h, hg.2.1, hg.2.2⟩
+    exact ⟨hr.1, hr.2, DynamicPool.malloc_inv grow fresh s n m h, hsz, htr, hg.2.1, hg.2.2.1, hg.2.2.2⟩
   | calloc c k r =>
-    have hr := DynamicPool.calloc_refines grow fresh s c k m h hop
+    have hr := DynamicPool.calloc_refines grow fresh s c k m h (DynamicPool.top_lt_sizeMod s h hz)
     have hg := DynamicPool.calloc_ledger grow fresh s c k m h
-    exact ⟨hr.1, hr.2, DynamicPool.calloc_inv grow fresh s c k m h, hg.2.1, hg.2.2⟩
+    exact ⟨hr.1, hr.2, DynamicPool.calloc_inv grow fresh s c k m h, hsz, htr, hg.2.1, hg.2.2.1, hg.2.2.2⟩
   | release p =>
-    refine ⟨rfl, DynamicPool.release_refines s p h, DynamicPool.release_inv s p h, ?_, rfl⟩
+    refine ⟨rfl, DynamicPool.release_refines s p h, DynamicPool.release_inv s p h, hsz, htr, ?_, rfl, rfl⟩
     simp only [DynamicPool.step, DynamicPool.release, DynamicPool.owned]
     split
     · split
@@ -52,82 +58,103 @@ theorem step_refines (grow : Nat → Nat) (fresh : Nat) (s : DynamicPool) (op : 
     · rfl
   | reset =>
     have hg := DynamicPool.reset_ledger s m h hl
-    exact ⟨rfl, DynamicPool.reset_refines s m h, DynamicPool.reset_inv s m h, hg.2.1, hg.2.2⟩
+    exact ⟨rfl, DynamicPool.reset_refines s m h, DynamicPool.reset_inv s m h, hsz, htr, hg.2.1, hg.2.2.1, hg.2.2.2⟩
   | write off n v =>
     have hw := DynamicPool.write_nofault s off n v m h hop
-    refine ⟨rfl, DynamicPool.write_refines s off n v m, DynamicPool.write_inv s off n v m h, ?_, ?_⟩
-    · show (s.write off n v m).2.live + s.owned = m.live + (s.write off n v m).1.owned
+    refine ⟨rfl, DynamicPool.write_refines s off n v m, DynamicPool.write_inv s off n v m h, hsz, htr, ?_, ?_, ?_⟩
+    · show (s.write off n v m).2.liveT s.triple + s.owned = m.liveT s.triple + (s.write off n v m).1.owned
       rw [hw]; simp only [DynamicPool.write, DynamicPool.owned, DynamicPool.fillTop]
       cases s.pages <;> simp
     · show (s.write off n v m).2.fault = m.fault
       rw [hw]
+    · show (s.write off n v m).2.liveO s.triple = m.liveO s.triple
+      rw [hw]
 
-/-- **C13, all histories.** From any state satisfying the invariant whose blocks are live in the
-ledger, every history returns exactly the pointers of the spec run on the same history (annotated
-with the refusals that occurred), ends in a state whose abstraction is the spec's final state, the
-ledger moved by the change in owned blocks, and nothing faulted. -/
+/-- **C13, all histories.** From any state satisfying the invariants whose blocks are live in the
+ledger of its triple, every history returns exactly the pointers of the spec run on the same history
+(annotated with the refusals that occurred), ends in a state whose abstraction is the spec's final
+state, the ledger moved by the change in owned blocks, and nothing faulted. -/
 theorem history_refines (grow : Nat → Nat) (fresh : Nat) (ops : List Op) (s : DynamicPool) (m : Mem)
-    (h : s.Inv) (hl : s.owned ≤ m.live) (hops : RunOk grow fresh s ops m) :
+    (h : s.Inv) (hz : s.Sized) (hl : s.owned ≤ m.liveT s.triple) (hops : RunOk grow fresh s ops m) :
     (DynamicPool.run grow fresh s ops m).1 = (DPool.run grow fresh s.abs (DynamicPool.run grow fresh s ops m).2.1).1 ∧
     (DynamicPool.run grow fresh s ops m).2.2.1.abs = (DPool.run grow fresh s.abs (DynamicPool.run grow fresh s ops m).2.1).2 ∧
-    (DynamicPool.run grow fresh s ops m).2.2.1.Inv ∧
-    (DynamicPool.run grow fresh s ops m).2.2.2.live + s.owned = m.live + (DynamicPool.run grow fresh s ops m).2.2.1.owned ∧
-    (DynamicPool.run grow fresh s ops m).2.2.2.fault = m.fault := by
+    (DynamicPool.run grow fresh s ops m).2.2.1.Inv ∧ (DynamicPool.run grow fresh s ops m).2.2.1.Sized ∧
+    (DynamicPool.run grow fresh s ops m).2.2.1.triple = s.triple ∧
+    (DynamicPool.run grow fresh s ops m).2.2.2.liveT s.triple + s.owned =
+      m.liveT s.triple + (DynamicPool.run grow fresh s ops m).2.2.1.owned ∧
+    (DynamicPool.run grow fresh s ops m).2.2.2.fault = m.fault ∧
+    (DynamicPool.run grow fresh s ops m).2.2.2.liveO s.triple = m.liveO s.triple := by
   induction ops generalizing s m with
-  | nil => exact ⟨rfl, rfl, h, rfl, rfl⟩
+  | nil => exact ⟨rfl, rfl, h, hz, rfl, rfl, rfl, rfl⟩
   | cons op ops ih =>
-    obtain ⟨h1, h2, h3, h4, h5⟩ := step_refines grow fresh s op m h hops.1 hl
-    have ih' := ih (DynamicPool.step grow fresh s op m).2.1 (DynamicPool.step grow fresh s op m).2.2 h3 (by omega) hops.2
+    obtain ⟨h1, h2, h3, h3z, h3t, h4, h5, h6⟩ := step_refines grow fresh s op m h hz hops.1 hl
+    have ih' := ih (DynamicPool.step grow fresh s op m).2.1 (DynamicPool.step grow fresh s op m).2.2 h3 h3z
+      (by rw [h3t]; omega) hops.2
     simp only [DynamicPool.run, DPool.run]
-    rw [h2] at ih'
-    refine ⟨?_, ih'.2.1, ih'.2.2.1, by omega, ?_⟩
+    rw [h2, h3t] at ih'
+    refine ⟨?_, ih'.2.1, ih'.2.2.1, ih'.2.2.2.1, ih'.2.2.2.2.1, by omega, ?_, ?_⟩
     · rw [h1, ih'.1]
-    · rw [ih'.2.2.2.2, h5]
+    · rw [ih'.2.2.2.2.2.2.1, h5]
+    · rw [ih'.2.2.2.2.2.2.2, h6]
 
-/-- **Full release.** Construct a pool, run any history, destroy it: the ledger is back where it
-started (every page and the struct were released exactly once — neither a leak nor a second
-`mem_free`, which would raise the fault flag), whatever pages were added and dropped on the way;
-and `used_bytes`/`free_bytes` always are the spec's. -/
-theorem new_history_destroy (grow : Nat → Nat) (fresh size ab : Nat) (fixed packed : Bool) (m0 m1 : Mem)
-    (s0 : DynamicPool) (hnew : DynamicPool.new size fixed packed ab fresh m0 = (.ok, some s0, m1))
+/-- **Full release.** Construct a pool on either allocator triple, run any history, destroy it: the
+ledger of that triple is back where it started (every page and the struct were released exactly
+once — neither a leak nor a second `mem_free`, which would raise the fault flag), the other
+triple's ledger never moved, whatever pages were added and dropped on the way; and
+`used_bytes`/`free_bytes` always are the spec's. -/
+theorem new_history_destroy (grow : Nat → Nat) (fresh size ab : Nat) (fixed packed : Bool) (t : Triple) (m0 m1 : Mem)
+    (s0 : DynamicPool) (hnew : DynamicPool.new size fixed packed ab fresh t m0 = (.ok, some s0, m1))
     (ops : List Op) (hops : RunOk grow fresh s0 ops m1) :
     let r := DynamicPool.run grow fresh s0 ops m1
     let sp := DPool.run grow fresh (DPool.init size fixed packed ab (List.replicate size fresh)) r.2.1
     r.1 = sp.1 ∧ r.2.2.1.abs = sp.2 ∧ r.2.2.1.usedBytes = sp.2.used ∧ r.2.2.1.freeBytes = sp.2.free ∧
-    (r.2.2.1.destroy r.2.2.2).live = m0.live ∧ (r.2.2.1.destroy r.2.2.2).fault = m0.fault := by
-  obtain ⟨hi, ha, hlive, hfault⟩ := DynamicPool.new_ok size fixed packed ab fresh m0 m1 s0 hnew
-  have hh := history_refines grow fresh ops s0 m1 hi (by omega) hops
-  rw [ha] at hh
-  obtain ⟨h1, h2, h3, h4, h5⟩ := hh
-  have hd := DynamicPool.destroy_ledger _ (DynamicPool.run grow fresh s0 ops m1).2.2.2 h3 (by omega)
-  refine ⟨h1, h2, ?_, ?_, by omega, by rw [hd.2, h5, hfault]⟩
+    (r.2.2.1.destroy r.2.2.2).liveT t = m0.liveT t ∧ (r.2.2.1.destroy r.2.2.2).fault = m0.fault ∧
+    (r.2.2.1.destroy r.2.2.2).liveO t = m0.liveO t := by
+  obtain ⟨hi, ha, htr, hlive, hfault, hother, hlim⟩ := DynamicPool.new_ok size fixed packed ab fresh t m0 m1 s0 hnew
+  have hz : s0.Sized := by
+    intro p hp
+    have : s0.abs.pages = [{ size := size, bytes := List.replicate size fresh, blocks := [] }] := by rw [ha]; rfl
+    rw [show s0.abs.pages = s0.pages from rfl] at this
+    rw [this, List.mem_singleton] at hp
+    rw [hp]; exact hlim
+  have hh := history_refines grow fresh ops s0 m1 hi hz (by rw [htr]; omega) hops
+  rw [ha, htr] at hh
+  obtain ⟨h1, h2, h3, _, h3t, h4, h5, h6⟩ := hh
+  have hd := DynamicPool.destroy_ledger _ (DynamicPool.run grow fresh s0 ops m1).2.2.2 h3 (by rw [h3t]; omega)
+  rw [h3t] at hd
+  refine ⟨h1, h2, ?_, ?_, by omega, by rw [hd.2.1, h5, hfault], by rw [hd.2.2, h6, hother]⟩
   · rw [DynamicPool.used_abs _ h3, h2]
   · rw [DynamicPool.free_abs _ h3, h2]
 
-/-- a refused constructor yields no pool and leaves the ledger balanced -/
-theorem new_refused (size ab fresh : Nat) (fixed packed : Bool) (m : Mem)
-    (h : (DynamicPool.new size fixed packed ab fresh m).1 ≠ .ok) :
-    (DynamicPool.new size fixed packed ab fresh m).1 = .errAlloc ∧
-    (DynamicPool.new size fixed packed ab fresh m).2.1 = none ∧
-    (DynamicPool.new size fixed packed ab fresh m).2.2.live = m.live := by
-  have := DynamicPool.new_atomic size fixed packed ab fresh m
-  rcases this.1 with h1 | h1
+/-- a constructor that does not succeed yields no pool and leaves the ledger balanced: either a
+refused allocation (`CC_ERR_ALLOC`, only possible on the configured triple) or a size whose page
+would not be addressable (`CC_ERR_INVALID_CAPACITY`, nothing allocated at all) -/
+theorem new_refused (size ab fresh : Nat) (fixed packed : Bool) (t : Triple) (m : Mem)
+    (h : (DynamicPool.new size fixed packed ab fresh t m).1 ≠ .ok) :
+    ((DynamicPool.new size fixed packed ab fresh t m).1 = .errAlloc ∨
+     ((DynamicPool.new size fixed packed ab fresh t m).1 = .errInvalidCapacity ∧ pageLimit < size)) ∧
+    (DynamicPool.new size fixed packed ab fresh t m).2.1 = none ∧
+    (DynamicPool.new size fixed packed ab fresh t m).2.2.liveT t = m.liveT t ∧
+    (DynamicPool.new size fixed packed ab fresh t m).2.2.fault = m.fault := by
+  have := DynamicPool.new_atomic size fixed packed ab fresh t m
+  rcases this.1 with h1 | h1 | ⟨h1, h2, h3, h4⟩
   · exact (h h1).elim
-  · exact ⟨h1, (this.2 h1).1, (this.2 h1).2.1⟩
+  · exact ⟨Or.inl h1, (this.2 h1).1, (this.2 h1).2.1, (this.2 h1).2.2.1⟩
+  · exact ⟨Or.inr ⟨h1, h2⟩, h3, by rw [h4], by rw [h4]⟩
 
 /-- **Refused page.** When the allocator refuses the page a `malloc`/`calloc` asks for, the call
 returns NULL, every field of the pool is unchanged and the ledger is unchanged. -/
 theorem refused_page_atomic (grow : Nat → Nat) (fresh : Nat) (s : DynamicPool) (m : Mem) :
     (∀ n, (DynamicPool.malloc grow fresh s n m).2.2.nrefused ≠ m.nrefused →
       (DynamicPool.malloc grow fresh s n m).1 = none ∧ (DynamicPool.malloc grow fresh s n m).2.1 = s ∧
-      (DynamicPool.malloc grow fresh s n m).2.2.live = m.live) ∧
+      (DynamicPool.malloc grow fresh s n m).2.2.liveT s.triple = m.liveT s.triple) ∧
     (∀ c k, (DynamicPool.calloc grow fresh s c k m).2.2.nrefused ≠ m.nrefused →
       (DynamicPool.calloc grow fresh s c k m).1 = none ∧ (DynamicPool.calloc grow fresh s c k m).2.1 = s ∧
-      (DynamicPool.calloc grow fresh s c k m).2.2.live = m.live) :=
+      (DynamicPool.calloc grow fresh s c k m).2.2.liveT s.triple = m.liveT s.triple) :=
   ⟨fun n h => DynamicPool.malloc_atomic grow fresh s n m h, fun c k h => DynamicPool.calloc_atomic grow fresh s c k m h⟩
 
 /-- NULL from `malloc`/`calloc` for whatever reason (too large, fixed pool full, growth too small,
-refused page): every field of the pool (ghost lists included) is unchanged -/
+next page not addressable, refused page): every field of the pool (ghost lists included) is unchanged -/
 theorem null_inert (grow : Nat → Nat) (fresh : Nat) (s : DynamicPool) (m : Mem) (h : s.Inv) :
     (∀ n, (DynamicPool.malloc grow fresh s n m).1 = none → (DynamicPool.malloc grow fresh s n m).2.1 = s) ∧
     (∀ c k, (DynamicPool.calloc grow fresh s c k m).1 = none → (DynamicPool.calloc grow fresh s c k m).2.1 = s) :=
@@ -145,14 +172,55 @@ theorem release_inert (s : DynamicPool) (p : Option (Nat × Nat)) (hp : p ≠ so
 
 /-- The C-visible part of every operation is computed from the C fields alone: forgetting the
 ghost fields (`erase`) before or after an operation gives the same pointer, the same allocator
-state and the same C fields. -/
+state and the same C fields — for `malloc`, `calloc`, `free`, `reset` and the user's writes. -/
 theorem ghost_irrelevant (grow : Nat → Nat) (fresh : Nat) (s : DynamicPool) (m : Mem) :
     (∀ n, (DynamicPool.malloc grow fresh s n m).1 = (DynamicPool.malloc grow fresh s.erase n m).1 ∧
           (DynamicPool.malloc grow fresh s n m).2.1.erase = (DynamicPool.malloc grow fresh s.erase n m).2.1.erase ∧
           (DynamicPool.malloc grow fresh s n m).2.2 = (DynamicPool.malloc grow fresh s.erase n m).2.2) ∧
+    (∀ c k, (DynamicPool.calloc grow fresh s c k m).1 = (DynamicPool.calloc grow fresh s.erase c k m).1 ∧
+          (DynamicPool.calloc grow fresh s c k m).2.1.erase = (DynamicPool.calloc grow fresh s.erase c k m).2.1.erase ∧
+          (DynamicPool.calloc grow fresh s c k m).2.2 = (DynamicPool.calloc grow fresh s.erase c k m).2.2) ∧
     (∀ p, (s.release p).erase = (s.erase.release p).erase) ∧
-    ((s.reset m).1.erase = (s.erase.reset m).1.erase ∧ (s.reset m).2 = (s.erase.reset m).2) :=
-  ⟨fun n => DynamicPool.malloc_erase grow fresh s n m, fun p => DynamicPool.release_erase s p, DynamicPool.reset_erase s m⟩
+    ((s.reset m).1.erase = (s.erase.reset m).1.erase ∧ (s.reset m).2 = (s.erase.reset m).2) ∧
+    (∀ off n v, (s.write off n v m).1.erase = (s.erase.write off n v m).1.erase ∧
+          (s.write off n v m).2 = (s.erase.write off n v m).2) :=
+  ⟨fun n => DynamicPool.malloc_erase grow fresh s n m, fun c k => DynamicPool.calloc_erase grow fresh s c k m,
+   fun p => DynamicPool.release_erase s p, DynamicPool.reset_erase s m, fun off n v => DynamicPool.write_erase s off n v m⟩
+
+/-- **End to end on the concrete model.** Construct a pool, run any history `ops₁`; in the state
+reached, every non-NULL result `(pg, off)` of `malloc n` addresses the newest page the pool then owns,
+lies with its padding inside that page's payload, and shares no byte with any other block that is
+live in that page; every live block of every page lies inside its page. -/
+theorem new_history_malloc_safe (grow : Nat → Nat) (fresh size ab : Nat) (fixed packed : Bool) (t : Triple) (m0 m1 : Mem)
+    (s0 : DynamicPool) (hnew : DynamicPool.new size fixed packed ab fresh t m0 = (.ok, some s0, m1))
+    (ops₁ : List Op) (hops : RunOk grow fresh s0 ops₁ m1) :
+    let s := (DynamicPool.run grow fresh s0 ops₁ m1).2.2.1
+    let m := (DynamicPool.run grow fresh s0 ops₁ m1).2.2.2
+    (∀ p ∈ s.pages, ∀ b ∈ p.blocks, b.off + b.span ≤ p.size) ∧
+    (∀ n a, (DynamicPool.malloc grow fresh s n m).1 = some a →
+      let s' := (DynamicPool.malloc grow fresh s n m).2.1
+      let span := n + padOf s.isPacked s.ab n
+      a.1 = s'.pages.length - 1 ∧ a.2 + span ≤ s'.abs.top.size ∧
+      ∀ b ∈ s'.abs.top.blocks.tail, disjoint (a.2, span) (b.off, b.span)) := by
+  intro s m
+  obtain ⟨hi, ha, htr, hlive, _, _, hlim⟩ := DynamicPool.new_ok size fixed packed ab fresh t m0 m1 s0 hnew
+  have hz : s0.Sized := by
+    intro p hp
+    have : s0.abs.pages = [{ size := size, bytes := List.replicate size fresh, blocks := [] }] := by rw [ha]; rfl
+    rw [show s0.abs.pages = s0.pages from rfl] at this
+    rw [this, List.mem_singleton] at hp
+    rw [hp]; exact hlim
+  have hh := history_refines grow fresh ops₁ s0 m1 hi hz (by rw [htr]; omega) hops
+  have hinv : s.Inv := hh.2.2.1
+  have hwf := DynamicPool.abs_wf s hinv
+  refine ⟨fun p hp b hb => ((Spec.DPoolFacts.live_in_page s.abs hwf p hp) b hb), ?_⟩
+  intro n a hsome
+  have hr := DynamicPool.malloc_refines grow fresh s n m hinv
+  rw [hr.1] at hsome
+  have hb := Spec.DPoolFacts.malloc_block grow fresh s.abs n _ a hwf hsome
+  simp only at hb
+  rw [← hr.2] at hb
+  exact ⟨hb.1, hb.2.1, hb.2.2.2.1⟩
 
 /-! ## The property in its own vocabulary (facts about the page/block spec) -/
 
@@ -250,10 +318,10 @@ theorem fixed_pool (grow : Nat → Nat) (fresh : Nat) (s : DPool) (h : s.WF) (hf
 
 /-- **Expandable pool.** A request smaller than the newest page that no longer fits there, fits the
 next page size and gets its page: one page of `grow (top size)` bytes is pushed, the block is its
-first, and the older pages are exactly what they were -/
+first, and the older pages are exactly what they were (`h4`: the next page is addressable) -/
 theorem expandable_pool_grows (grow : Nat → Nat) (fresh : Nat) (s : DPool) (n : Nat) (hf : s.fixed = false)
     (h1 : n < s.top.size) (h2 : s.free < n + padOf s.packed s.ab n)
-    (h3 : n + padOf s.packed s.ab n ≤ grow s.top.size) :
+    (h3 : n + padOf s.packed s.ab n ≤ grow s.top.size) (h4 : grow s.top.size ≤ pageLimit) :
     DPool.malloc grow fresh s n false =
       (some (s.pages.length, 0),
        { s with pages := { size := grow s.top.size, bytes := List.replicate (grow s.top.size) fresh,
@@ -263,7 +331,8 @@ theorem expandable_pool_grows (grow : Nat → Nat) (fresh : Nat) (s : DPool) (n 
   have a1 : ¬ n ≥ s.top.size := by omega
   have a2 : ¬ n + padOf s.packed s.ab n ≤ s.top.size - s.topUsed := by omega
   have a3 : ¬ n + padOf s.packed s.ab n > grow s.top.size := by omega
-  simp [a1, a2, a3, hf]
+  have a4 : ¬ grow s.top.size > pageLimit := by omega
+  simp [a1, a2, a3, a4, hf]
 
 /-- the refusal flag matters only when a page is requested: then the call returns NULL and
 changes nothing -/
@@ -294,6 +363,37 @@ theorem used_plus_free (s : DPool) (h : s.WF) :
     simp only [DPool.used, DPool.free, DPool.topUsed, DPool.top, hp, List.headD_cons, List.tail_cons, pagesSize]
     exact ⟨by first | rfl | trivial, by first | rfl | trivial, by omega⟩
 
+/-- `used` against the blocks handed out: it is at least what the live blocks of all pages reserve
+and at most the total payload (older pages count in full, as the library defines it); for a fixed
+pool it is exactly what the live blocks reserve; and in packed mode a block reserves exactly the
+requested size — so a fixed packed pool has `used` = the sum of the live request sizes, as the
+static pool (C12) -/
+theorem used_vs_blocks (s : DPool) (h : s.WF) :
+    Spec.DPoolFacts.totalSpan s.pages ≤ s.used ∧ s.used ≤ pagesSize s.pages ∧
+    (s.fixed = true → s.used = spanLen s.top.blocks) :=
+  ⟨(Spec.DPoolFacts.used_bounds s h).1, (Spec.DPoolFacts.used_bounds s h).2,
+   fun hf => (Spec.DPoolFacts.fixed_used_exact s h hf).2⟩
+
+theorem fixed_packed_used_is_sum (grow : Nat → Nat) (fresh size ab : Nat) (bytes : List Nat) (hb : bytes.length = size)
+    (ops : List Op) :
+    let s := (DPool.run grow fresh (DPool.init size true true ab bytes) ops).2
+    s.used = (s.top.blocks.map (·.len)).sum := by
+  intro s
+  have hwf : s.WF := spec_wf_run grow fresh ops _ (spec_init_wf size ab true true bytes hb)
+  have hpe := Spec.DPoolFacts.packedExact_run grow fresh ops _ (Spec.DPoolFacts.packedExact_init size ab true true bytes)
+  have hfx : s.fixed = true := Spec.DPoolFacts.run_config grow fresh ops _ |>.1
+  have hpk : s.packed = true := Spec.DPoolFacts.run_config grow fresh ops _ |>.2
+  rw [(Spec.DPoolFacts.fixed_used_exact s hwf hfx).2]
+  apply Spec.DPoolFacts.spanLen_eq_len
+  intro b hbm
+  obtain ⟨hne, _, _⟩ := hwf
+  cases hp : s.pages with
+  | nil => exact (hne hp).elim
+  | cons p ps =>
+    have htop : s.top = p := by simp [DPool.top, hp]
+    rw [htop] at hbm
+    exact hpe hpk p (by rw [hp]; exact List.mem_cons_self ..) b hbm
+
 /-- **Reset.** Exactly one page is left, the oldest one, with no live block -/
 theorem reset_one_page (s : DPool) (h : s.WF) :
     ∃ p, s.pages.getLast? = some p ∧ s.reset.pages = [{ p with blocks := [] }] ∧ s.reset.undo = false ∧
@@ -309,6 +409,22 @@ the pool to a single empty page of the initial size -/
 theorem oldest_page_size (grow : Nat → Nat) (fresh : Nat) (s : DPool) (op : Op) :
     ((DPool.step grow fresh s op).2.pages.getLast?.map (·.size)) = (s.pages.getLast?.map (·.size)) :=
   Spec.DPoolFacts.oldest_page_size grow fresh s op
+
+/-- **Reset at run level**: after any history on a pool of initial size `size`, `reset` leaves
+exactly one page, of size `size`, with no live block, `used = 0` and `free = size` -/
+theorem reset_after_run (grow : Nat → Nat) (fresh size ab : Nat) (fixed packed : Bool) (bytes : List Nat)
+    (hb : bytes.length = size) (ops : List Op) :
+    let s := (DPool.run grow fresh (DPool.init size fixed packed ab bytes) ops).2
+    ∃ bytes', s.reset.pages = [{ size := size, bytes := bytes', blocks := [] }] ∧ s.reset.used = 0 ∧ s.reset.free = size := by
+  intro s
+  have hwf : s.WF := spec_wf_run grow fresh ops _ (spec_init_wf size ab fixed packed bytes hb)
+  obtain ⟨p, hp, hpages, _, hu, hf⟩ := reset_one_page s hwf
+  have hsz := Spec.DPoolFacts.oldest_page_size_run grow fresh ops (DPool.init size fixed packed ab bytes)
+  have : p.size = size := by
+    have : (s.pages.getLast?.map (·.size)) = some size := by rw [hsz]; rfl
+    rw [hp] at this; simpa using this
+  refine ⟨p.bytes, ?_, hu, by rw [hf, this]⟩
+  rw [hpages, ← this]
 
 /-- one roll-back slot: `free` of the newest block of the newest page removes exactly that block;
 once the slot is empty no `free` changes anything; any other pointer changes nothing -/
@@ -345,10 +461,21 @@ theorem calloc_zeroed (grow : Nat → Nat) (fresh : Nat) (s : DPool) (c k : Nat)
 
 /-! ## Non-vacuity: a padded expandable pool with two pages; the newest block can be rolled back -/
 example :
-    let s := DynamicPool.mk false false 9 4
+    let s := DynamicPool.mk .conf false false 9 4
       [PPage.mk 9 [2, 2, 2, 238, 3, 238, 238, 238, 238] [PBlk.mk 4 1 4, PBlk.mk 0 3 4],
        PPage.mk 6 [1, 1, 238, 238, 238, 238] [PBlk.mk 0 2 4]] 8 4 true
     s.Inv ∧ s.usedBytes = 14 ∧ s.freeBytes = 1 ∧ (s.release (some (1, 4))).free = 4 := by
   decide
+
+/-! Non-vacuity of `RunOk`: a history with an expansion, a write into the new page, a roll-back and a
+reset meets its preconditions from a freshly constructed pool -/
+example :
+    let s0 : DynamicPool := DynamicPool.mk .conf false true 4 1 [PPage.mk 4 [238, 238, 238, 238] []] 0 0 false
+    let ops : List Op := [.malloc 3 false, .write 0 3 7, .malloc 3 false, .write 0 3 9, .release (some (1, 0)),
+                          .calloc 1 2 false, .reset, .malloc 3 false]
+    s0.Inv ∧ s0.Sized ∧ RunOk (fun c => 2 * c) 238 s0 ops { live := 2 } ∧
+    (DynamicPool.run (fun c => 2 * c) 238 s0 ops { live := 2 }).1 =
+      [some (0, 0), none, some (1, 0), none, none, some (1, 0), none, some (0, 0)] := by
+  refine ⟨by decide, by decide, by decide, by decide⟩
 
 end CC.Properties.C13
